@@ -72,6 +72,12 @@ func genScan(profile string, ending bool) func(seed uint64, r *rng.Rand) *Plan {
 			n := g.R.Range(1, 3)
 			for i := 0; i < n; i++ {
 				o := g.scanOp(ts)
+				if !ending && g.R.Chance(0.25) {
+					// a slow consumer with scanner renewal: the renewer runs between
+					// two fetches and must not move the region scanner
+					o.RenewMS = g.R.Range(10, 60)
+					o.PauseMS = g.R.Range(0, 120)
+				}
 				if ending {
 					switch g.R.Intn(6) {
 					case 0:
